@@ -424,7 +424,7 @@ func (f *flow) analyse(fl *ast.FuncLit) {
 			if inLoop {
 				// back-edge arrival: must be exactly one more successful iteration
 				iv := invs[marker+"/"+histLoopTag(s.hist, marker)]
-				if !(strings.HasSuffix(strings.TrimRight(s.pos, ")"), "("+strings.TrimRight(iv.pos, ")")) && (s.tok == iv.tok || strings.HasPrefix(s.tok, iv.tok+"·"))) {
+				if !(strings.HasSuffix(strings.TrimRight(s.pos, ")"), "("+strings.TrimRight(iv.pos, ")")) && tokDerived(s.tok, iv.tok)) {
 					o := outcome{Kind: "loop-back-edge", Pos: s.pos, Tok: s.tok, Hist: s.hist, Flags: append(s.flags, "the state at the repetition's back edge is not 'invariant advanced by one successful iteration of the body' (position "+s.pos+", tokens "+s.tok+" vs invariant "+iv.pos+", "+iv.tok+")")}
 					f.outs[o.String()] = o
 				}
@@ -930,4 +930,30 @@ func nodeStr(fset *token.FileSet, n ast.Node) string {
 	var sb strings.Builder
 	printerFprint(&sb, fset, n)
 	return clip(strings.Join(strings.Fields(sb.String()), " "), 160)
+}
+
+// tokDerived: token trace t extends base, possibly through the invariants of
+// inner repetitions (J<n>(x) = x followed by the tokens of ≥0 iterations).
+func tokDerived(t, base string) bool {
+	if t == base || strings.HasPrefix(t, base+"·") {
+		return true
+	}
+	if len(t) > 2 && t[0] == 'J' {
+		i := strings.IndexByte(t, '(')
+		if i < 0 {
+			return false
+		}
+		depth := 0
+		for k := i; k < len(t); k++ {
+			if t[k] == '(' {
+				depth++
+			} else if t[k] == ')' {
+				depth--
+				if depth == 0 {
+					return tokDerived(t[i+1:k], base)
+				}
+			}
+		}
+	}
+	return false
 }
